@@ -6,7 +6,8 @@
 // identical normalised observation (has_value, scalar-ness, shape, every element).
 //   Case key:  <operation>|<input-set index>|<kind id per argument>       kind ids: see c09_driver.hpp (0 dyn 1 ct 2 clipped 3 fixed
 //              4 bounded 5 rtuple 6 raw 7 clipped_arr; scalars: 0 run-time int 1 ct 2 clipped; flags: 0 bool 1 constant;
-//              array operands (part 3): see ARR_* below)
+//              array operands (part 3): 0 dyn 1 raw 2 nested_arr 3 fixed_ndarray 4 hybrid_ndarray 5 dynamic_ndarray 6..20 cast kinds
+//              cs_fb cs_hb cs_db fs_fb fs_hb fs_db hs_fb hs_hb hs_db ds_fb ds_hb ds_db ls_fb ls_hb ls_db; slices: see S_* in c09_driver.hpp)
 //   Tiers:     quick    = every combination with <= 1 deviation from all-dynamic + the UNIFORM combinations (all arguments of one
 //                         kind: that is what upstream tests exercise and where all-constant arguments give compile-time results);
 //                         index functions with <= 2 arguments: the complete kind x kind matrix (2 deviations; it is cheap and it is
@@ -17,6 +18,60 @@
 //   Units:     -DC09_PART=1 index functions, 2 views with shape-like arguments (dyn array operand), 3 array-operand kinds;
 //              -DC09_OPS=<bit mask of operation numbers of that part> selects operations (default: all);
 //              -DC09_IMOD=m -DC09_IREM=r keeps only the inputs with index % m == r (splits one heavy operation over several units).
+//              -DC09_KMOD=m -DC09_KREM=r keeps only the kind tuples whose first kind id % m == r (same purpose).
+//              Measured partition (g++ 12 -O0, every unit < 90 s on an idle machine, < 180 s under load 18):
+//                idx_q_a            quick    -DC09_PART=1 -DC09_DEV=1 -DC09_CONSTEXPR -DC09_OPS=0xfULL
+//                idx_q_b            quick    -DC09_PART=1 -DC09_DEV=1 -DC09_CONSTEXPR -DC09_OPS=0x3f0ULL
+//                idx_q_c            quick    -DC09_PART=1 -DC09_DEV=1 -DC09_CONSTEXPR -DC09_OPS=0x1fc00ULL
+//                idx_q_d            quick    -DC09_PART=1 -DC09_DEV=1 -DC09_CONSTEXPR -DC09_OPS=0x3e0000ULL
+//                idx_q_e            quick    -DC09_PART=1 -DC09_DEV=1 -DC09_CONSTEXPR -DC09_OPS=0x1c00000ULL
+//                view_q_a           quick    -DC09_PART=2 -DC09_DEV=1 -DC09_OPS=0x3ffULL
+//                view_q_b           quick    -DC09_PART=2 -DC09_DEV=1 -DC09_OPS=0x3fc00ULL
+//                arr_q_a            quick    -DC09_PART=3 -DC09_DEV=1 -DC09_OPS=0x3ULL
+//                arr_q_b            quick    -DC09_PART=3 -DC09_DEV=1 -DC09_OPS=0x4ULL
+//                arr_q_c            quick    -DC09_PART=3 -DC09_DEV=1 -DC09_IMOD=2 -DC09_IREM=0 -DC09_OPS=0x8ULL
+//                arr_q_d            quick    -DC09_PART=3 -DC09_DEV=1 -DC09_IMOD=2 -DC09_IREM=1 -DC09_OPS=0x8ULL
+//                arr_t_reshape_0    thorough -DC09_PART=3 -DC09_DEV=2 -DC09_IMOD=3 -DC09_IREM=0 -DC09_OPS=0x1ULL
+//                arr_t_reshape_1    thorough -DC09_PART=3 -DC09_DEV=2 -DC09_IMOD=3 -DC09_IREM=1 -DC09_OPS=0x1ULL
+//                arr_t_reshape_2    thorough -DC09_PART=3 -DC09_DEV=2 -DC09_IMOD=3 -DC09_IREM=2 -DC09_OPS=0x1ULL
+//                arr_t_transpose_0  thorough -DC09_PART=3 -DC09_DEV=2 -DC09_IMOD=3 -DC09_IREM=0 -DC09_OPS=0x2ULL
+//                arr_t_transpose_1  thorough -DC09_PART=3 -DC09_DEV=2 -DC09_IMOD=3 -DC09_IREM=1 -DC09_OPS=0x2ULL
+//                arr_t_transpose_2  thorough -DC09_PART=3 -DC09_DEV=2 -DC09_IMOD=3 -DC09_IREM=2 -DC09_OPS=0x2ULL
+//                arr_t_sum_0        thorough -DC09_PART=3 -DC09_DEV=2 -DC09_IMOD=3 -DC09_IREM=0 -DC09_OPS=0x4ULL
+//                arr_t_sum_1        thorough -DC09_PART=3 -DC09_DEV=2 -DC09_IMOD=3 -DC09_IREM=1 -DC09_OPS=0x4ULL
+//                arr_t_sum_2        thorough -DC09_PART=3 -DC09_DEV=2 -DC09_IMOD=3 -DC09_IREM=2 -DC09_OPS=0x4ULL
+//                arr_t_add_0_0      thorough -DC09_PART=3 -DC09_DEV=2 -DC09_IMOD=4 -DC09_IREM=0 -DC09_KMOD=3 -DC09_KREM=0 -DC09_OPS=0x8ULL
+//                arr_t_add_0_1      thorough -DC09_PART=3 -DC09_DEV=2 -DC09_IMOD=4 -DC09_IREM=0 -DC09_KMOD=3 -DC09_KREM=1 -DC09_OPS=0x8ULL
+//                arr_t_add_0_2      thorough -DC09_PART=3 -DC09_DEV=2 -DC09_IMOD=4 -DC09_IREM=0 -DC09_KMOD=3 -DC09_KREM=2 -DC09_OPS=0x8ULL
+//                arr_t_add_1_0      thorough -DC09_PART=3 -DC09_DEV=2 -DC09_IMOD=4 -DC09_IREM=1 -DC09_KMOD=3 -DC09_KREM=0 -DC09_OPS=0x8ULL
+//                arr_t_add_1_1      thorough -DC09_PART=3 -DC09_DEV=2 -DC09_IMOD=4 -DC09_IREM=1 -DC09_KMOD=3 -DC09_KREM=1 -DC09_OPS=0x8ULL
+//                arr_t_add_1_2      thorough -DC09_PART=3 -DC09_DEV=2 -DC09_IMOD=4 -DC09_IREM=1 -DC09_KMOD=3 -DC09_KREM=2 -DC09_OPS=0x8ULL
+//                arr_t_add_2_0      thorough -DC09_PART=3 -DC09_DEV=2 -DC09_IMOD=4 -DC09_IREM=2 -DC09_KMOD=3 -DC09_KREM=0 -DC09_OPS=0x8ULL
+//                arr_t_add_2_1      thorough -DC09_PART=3 -DC09_DEV=2 -DC09_IMOD=4 -DC09_IREM=2 -DC09_KMOD=3 -DC09_KREM=1 -DC09_OPS=0x8ULL
+//                arr_t_add_2_2      thorough -DC09_PART=3 -DC09_DEV=2 -DC09_IMOD=4 -DC09_IREM=2 -DC09_KMOD=3 -DC09_KREM=2 -DC09_OPS=0x8ULL
+//                arr_t_add_3_0      thorough -DC09_PART=3 -DC09_DEV=2 -DC09_IMOD=4 -DC09_IREM=3 -DC09_KMOD=3 -DC09_KREM=0 -DC09_OPS=0x8ULL
+//                arr_t_add_3_1      thorough -DC09_PART=3 -DC09_DEV=2 -DC09_IMOD=4 -DC09_IREM=3 -DC09_KMOD=3 -DC09_KREM=1 -DC09_OPS=0x8ULL
+//                arr_t_add_3_2      thorough -DC09_PART=3 -DC09_DEV=2 -DC09_IMOD=4 -DC09_IREM=3 -DC09_KMOD=3 -DC09_KREM=2 -DC09_OPS=0x8ULL
+//                idx_t_00           thorough -DC09_PART=1 -DC09_DEV=3 -DC09_CONSTEXPR -DC09_IMOD=2 -DC09_IREM=0 -DC09_OPS=0x2ULL
+//                idx_t_01           thorough -DC09_PART=1 -DC09_DEV=3 -DC09_CONSTEXPR -DC09_IMOD=2 -DC09_IREM=1 -DC09_OPS=0x2ULL
+//                idx_t_02           thorough -DC09_PART=1 -DC09_DEV=3 -DC09_CONSTEXPR  -DC09_OPS=0x5ULL
+//                idx_t_03           thorough -DC09_PART=1 -DC09_DEV=3 -DC09_CONSTEXPR  -DC09_OPS=0x38ULL
+//                idx_t_04           thorough -DC09_PART=1 -DC09_DEV=3 -DC09_CONSTEXPR  -DC09_OPS=0x40ULL
+//                idx_t_05           thorough -DC09_PART=1 -DC09_DEV=3 -DC09_CONSTEXPR  -DC09_OPS=0x380ULL
+//                idx_t_06           thorough -DC09_PART=1 -DC09_DEV=3 -DC09_CONSTEXPR  -DC09_OPS=0xc00ULL
+//                idx_t_07           thorough -DC09_PART=1 -DC09_DEV=3 -DC09_CONSTEXPR  -DC09_OPS=0x1000ULL
+//                idx_t_08           thorough -DC09_PART=1 -DC09_DEV=3 -DC09_CONSTEXPR  -DC09_OPS=0x1e000ULL
+//                idx_t_09           thorough -DC09_PART=1 -DC09_DEV=3 -DC09_CONSTEXPR  -DC09_OPS=0x60000ULL
+//                idx_t_10           thorough -DC09_PART=1 -DC09_DEV=3 -DC09_CONSTEXPR  -DC09_OPS=0x180000ULL
+//                idx_t_11           thorough -DC09_PART=1 -DC09_DEV=3 -DC09_CONSTEXPR  -DC09_OPS=0x200000ULL
+//                idx_t_12           thorough -DC09_PART=1 -DC09_DEV=3 -DC09_CONSTEXPR  -DC09_OPS=0x400000ULL
+//                idx_t_13           thorough -DC09_PART=1 -DC09_DEV=3 -DC09_CONSTEXPR  -DC09_OPS=0x1800000ULL
+//                view_t_a           thorough -DC09_PART=2 -DC09_DEV=2 -DC09_OPS=0x7fULL
+//                view_t_b           thorough -DC09_PART=2 -DC09_DEV=2 -DC09_OPS=0xf80ULL
+//                view_t_c           thorough -DC09_PART=2 -DC09_DEV=2 -DC09_OPS=0x1000ULL
+//                view_t_d           thorough -DC09_PART=2 -DC09_DEV=2 -DC09_OPS=0x3e000ULL
+//   Counters:  supported/<op>, skipped_unsupported/<op> (fail type), excluded_hard_error/<op> (table), compile_time_results_compared,
+//              constexpr_results_compared, deviation_bound_compiled.
 //   Compile-time vs run-time: with constant (ct) arguments most index functions return a constant index array, whose value is read
 //              from the TYPE (meta::to_value_v, inside nmc::to_L) and compared with the run-time (all-dynamic) result of the same call
 //              (COUNT compile_time_results_compared).  -DC09_CONSTEXPR additionally evaluates `constexpr auto r = f(args)` for the
@@ -784,6 +839,16 @@ struct a_add { VIEW_HEAD("add") using inputs = ADD_INPUTS;
 #define OP39
 #endif
 
+// a deliberately kind-dependent "implementation" for the self test: every non-dynamic kind gets its first element clamped to 2
+struct selftest_bad_op { static constexpr const char* name = "selftest_bad"; static constexpr bool index_result = true; NO_EXCLUSIONS CX_NONE
+    using inputs = tl< in<vals<4, 3>> >;
+    template <typename... A> static constexpr bool unsupported() { return false; }
+    template <typename A> static auto call(const A& a) {
+        nmtools_list<nm_index_t> r; for (long x : nmc::to_L(a)) r.push_back((nm_index_t)x);
+        if constexpr (!meta::is_same_v<A, nmtools_list<nm_index_t>>) r[0] = 2;
+        return r;
+    }
+};
 using ops = oplist<nil_op OP0 OP1 OP2 OP3 OP4 OP5 OP6 OP7 OP8 OP9 OP10 OP11 OP12 OP13 OP14 OP15 OP16 OP17 OP18 OP19 OP20 OP21 OP22 OP23 OP24 OP25 OP26 OP27 OP28 OP29 OP30 OP31 OP32 OP33 OP34 OP35 OP36 OP37 OP38 OP39>;
 const char* nmc_property() { return "C09"; }
 void nmc_enumerate(const nmc::Tier& t, const nmc::Sink& emit) { ops::enumerate(t, emit); }
@@ -798,6 +863,14 @@ void nmc_selftest() {
     Obs s; s.scalar = true; s.data = {5}; Obs v; v.shape = {1}; v.data = {5};
     if (obs_diff(s, v).empty()) nmc::die("selftest: scalar vs 1-element array not flagged");
     if (!obs_diff(a, a).empty()) nmc::die("selftest: equal observations flagged");
+    // a kind-dependent implementation must be flagged by the real instantiate-run-normalise-compare path, the all-dynamic case must pass
+    {   // (instantiated directly: the unit-splitting filters C09_IMOD / C09_KMOD must not hide the self-test case)
+        using args_t = tl_at_t<0, selftest_bad_op::inputs>;
+        const Obs ref = inst<selftest_bad_op, 0, meta::integer_sequence<int, DYN>, args_t>::run();
+        const Obs bad = inst<selftest_bad_op, 0, meta::integer_sequence<int, FIX>, args_t>::run();
+        if (obs_diff(ref, bad).empty()) nmc::die("selftest: kind-dependent result not flagged");
+        if (!obs_diff(ref, ref).empty() || ref.data != std::vector<double>{4, 3}) nmc::die("selftest: all-dynamic reference wrong");
+    }
     // lift: every kind carries the same values
     if (nmc::to_L(lift<2, 1, 3>(kind_c<CT>{})) != L{2, 1, 3} || nmc::to_L(lift<2, 1, 3>(kind_c<CL>{})) != L{2, 1, 3} || nmc::to_L(lift<2, 1, 3>(kind_c<CLA>{})) != L{2, 1, 3}
         || nmc::to_L(lift<2, 1, 3>(kind_c<FIX>{})) != L{2, 1, 3} || nmc::to_L(lift<2, 1, 3>(kind_c<BND>{})) != L{2, 1, 3} || nmc::to_L(lift<2, 1, 3>(kind_c<TUP>{})) != L{2, 1, 3}
